@@ -83,6 +83,29 @@ pub fn case_strategy_quick_restart() -> BoxedStrategy<Case> {
         .boxed()
 }
 
+/// a gRPC client registers through node `b`; another node `c` is killed and restarted at once afterwards, so it learns
+/// those registrations only from the snapshot it asks for after its start (not from the live synchronisation); the
+/// client registers nothing further; then node `b` is killed: every survivor - also the one that was taught by
+/// snapshot - has to drop the dead node's connection instances
+pub fn case_strategy_snapshot_learner_then_owner_killed() -> BoxedStrategy<Case> {
+    (0u8..3, 0u8..3, 1u8..3, prop::collection::vec((0u8..3, 6u8..12), 1..4), 3_000u16..9_000, prop::collection::vec(op_strategy(false), 0..6), prop::collection::vec(op_strategy(false), 0..6))
+        .prop_map(|(conn, b, dc, regs, wait, mut a, tail)| {
+            let c_node = (b + dc) % 3;
+            a.push(Op::GrpcConnect { conn, node: b });
+            for (svc, addr) in regs {
+                a.push(Op::GrpcRegister { conn, svc, addr });
+            }
+            a.push(Op::Pause { ms: 1200 });
+            a.push(Op::KillRestartQuick { node: c_node });
+            a.push(Op::Pause { ms: wait });
+            a.push(Op::Kill { node: b });
+            // (only operations that do not talk to the connection of the killed node change anything afterwards)
+            a.extend(tail);
+            Case { ops: a }
+        })
+        .boxed()
+}
+
 /// HTTP clients die (heartbeats stop without a deregistration); while their instances are unhealthy but not yet removed
 /// the node `node` is killed: whatever it was responsible for has to be timed out by the survivors
 pub fn case_strategy_abandon_kill() -> BoxedStrategy<Case> {
@@ -769,7 +792,7 @@ pub fn main(ctx: &Ctx) -> i32 {
     let work = work_dir(ctx);
     let fin = || Finish {
         level: "exploration",
-        rule: "schedules (10..36 ops) on real 3-node clusters: HTTP register (explicit weights 2..4; weight 1 means 'not given' to the handler) / deregister addressed to generated nodes over 3 services x 6 addresses, gRPC register / deregister of 6 further addresses through up to three held bi-stream connections attached to generated nodes, connection close, pauses, back-to-back update+deregister / deregister+register of one address (inside one sync batch), and (second class) kill -9 / restart of one node, (third class) kill -9 of a node that holds gRPC registrations followed by its immediate restart (inside the 15 s after which its peers would declare it dead) with no gRPC client connecting to it afterwards, (fourth class) HTTP clients that die without deregistering (heartbeats just stop) followed 17..27 s later - the instances are unhealthy but not yet removed - by kill -9 of a node; HTTP heartbeats are kept going every 2 s for HTTP instances the model holds. Oracle: within 100 s after the last op (1) all live nodes return the same set (ip, port, healthy, enabled, weight) for every service and (2) that set is exactly the model's surviving registrations, healthy and enabled - instances of connections attached to a killed node, of closed connections and deregistered ones are gone, everything else present; weights are compared with the model only in schedules without a kill (after a kill a heartbeat may re-create an instance on the new responsible node and the server takes no weight from a beat). Saved replays are re-run first. non-trivial = one address written through two different nodes, or a node killed while holding gRPC registrations; distinct = hash of the schedule".into(),
+        rule: "schedules (10..36 ops) on real 3-node clusters: HTTP register (explicit weights 2..4; weight 1 means 'not given' to the handler) / deregister addressed to generated nodes over 3 services x 6 addresses, gRPC register / deregister of 6 further addresses through up to three held bi-stream connections attached to generated nodes, connection close, pauses, back-to-back update+deregister / deregister+register of one address (inside one sync batch), and (second class) kill -9 / restart of one node, (third class) kill -9 of a node that holds gRPC registrations followed by its immediate restart (inside the 15 s after which its peers would declare it dead) with no gRPC client connecting to it afterwards, (fourth class) HTTP clients that die without deregistering (heartbeats just stop) followed 17..27 s later - the instances are unhealthy but not yet removed - by kill -9 of a node, (fifth class) gRPC registrations through node B, then kill -9 + immediate restart of another node C (it learns those registrations only from the snapshot it asks for after its start), 3..9 s later kill -9 of B; HTTP heartbeats are kept going every 2 s for HTTP instances the model holds. Oracle: within 100 s after the last op (1) all live nodes return the same set (ip, port, healthy, enabled, weight) for every service and (2) that set is exactly the model's surviving registrations, healthy and enabled - instances of connections attached to a killed node, of closed connections and deregistered ones are gone, everything else present; weights are compared with the model only in schedules without a kill (after a kill a heartbeat may re-create an instance on the new responsible node and the server takes no weight from a beat). Saved replays are re-run first. non-trivial = one address written through two different nodes, or a node killed while holding gRPC registrations; distinct = hash of the schedule".into(),
         assumptions: vec![
             "message schedules between the nodes are sampled by real execution, not controlled ('delayed batch overtaking a remove' is reachable only by luck)".into(),
             "HTTP deregistration is only issued for addresses that are not connection-owned; gRPC addresses are written by one connection at a time (keeps the reference model exact)".into(),
@@ -825,6 +848,14 @@ pub fn main(ctx: &Ctx) -> i32 {
     let w4 = work.clone();
     let n_quick = ctx.tier.pick(5u32, 30u32);
     let fail = run_cases(ctx, &stats, case_strategy_quick_restart as fn() -> _, n_quick, 5, 4, move |c| run_case(c, &w4, seed));
+    if fail.is_some() {
+        std::fs::remove_dir_all(&work).ok();
+        return finish(ctx, &stats, fin(), fail);
+    }
+    // fifth class: a node learns gRPC registrations by snapshot only, then the node that holds them is killed
+    let w6 = work.clone();
+    let n_learn = ctx.tier.pick(5u32, 30u32);
+    let fail = run_cases(ctx, &stats, case_strategy_snapshot_learner_then_owner_killed as fn() -> _, n_learn, 5, 4, move |c| run_case(c, &w6, seed));
     std::fs::remove_dir_all(&work).ok();
     finish(ctx, &stats, fin(), fail)
 }
